@@ -104,3 +104,19 @@ fn merge_keep_nullable<'a, T: Copy + 'a>(ops: &[u8],
     }
     (result, present)
 }
+
+#[cfg(feature = "verif")]
+pub fn verif_merge_keep<'a, T: Copy + 'a>(ops: &[u8], left: &[T], right: &[T]) -> Vec<T> {
+    merge_keep::<T>(ops, left, right)
+}
+
+#[cfg(feature = "verif")]
+pub fn verif_merge_keep_nullable<'a, T: Copy + 'a>(
+    ops: &[u8],
+    left: &[T],
+    right: &[T],
+    left_present: &[u8],
+    right_present: &[u8],
+) -> (Vec<T>, Vec<u8>) {
+    merge_keep_nullable::<T>(ops, left, right, left_present, right_present)
+}
